@@ -205,11 +205,15 @@ class World:
         t = self.mgr_task
         if t is None or t.done:
             self._raise_if_crashed()
+            if getattr(self, "round_cap_hit", False):
+                raise SimStall(f"run exceeded the cap of {self.max_rounds} manager rounds")
             return "dead"
         self.baton.switch(t)
         if t.done:
             self.mgr_state = "dead"
             self._raise_if_crashed()
+            if getattr(self, "round_cap_hit", False):
+                raise SimStall(f"run exceeded the cap of {self.max_rounds} manager rounds")
         return self.mgr_state
 
     def _raise_if_crashed(self):
@@ -260,6 +264,7 @@ class World:
         net.round += 1
         net.stats["rounds"] += 1
         if net.round > self.max_rounds:
+            self.round_cap_hit = True
             raise SimShutdown()
         self._arrivals(rlist)
         ready = [s for s in rlist if s.readable()]
